@@ -9,6 +9,7 @@ the recorded traces are judged by TLC (spec/PWTrace.tla).
 
 from __future__ import annotations
 
+import cmath
 import math
 import os
 import random
@@ -145,6 +146,8 @@ class Program:
                 op = T["Op"](T["P"].Custom, operator=jnp.array(rand_unitary(r, 2)))
         elif k == "F":
             c = r.choice(["cre", "ann", "ps", "disp", "sq", "id", "expr"])
+            if PROFILE == "fock":       # automatic cutoffs: larger, negative and complex parameters
+                c = r.choice(["cre", "ann", "ps", "disp", "disp", "disp", "sq", "sq", "id"])
             if c == "cre":
                 op = T["Op"](T["F"].Creation)
             elif c == "ann":
@@ -152,9 +155,15 @@ class Program:
             elif c == "ps":
                 op = T["Op"](T["F"].PhaseShift, phi=r.uniform(-7, 7))
             elif c == "disp":
-                op = T["Op"](T["F"].Displace, alpha=complex(r.uniform(-0.6, 0.6), r.uniform(-0.6, 0.6)))
+                al = complex(r.uniform(-0.6, 0.6), r.uniform(-0.6, 0.6))
+                if PROFILE == "fock":
+                    al = r.choice([0.3, 1.0, 1.6]) * cmath.exp(1j * r.uniform(0, 2 * math.pi))
+                op = T["Op"](T["F"].Displace, alpha=al)
             elif c == "sq":
-                op = T["Op"](T["F"].Squeeze, zeta=complex(r.uniform(-0.3, 0.3), r.uniform(-0.3, 0.3)))
+                z = complex(r.uniform(-0.3, 0.3), r.uniform(-0.3, 0.3))
+                if PROFILE == "fock":
+                    z = r.choice([0.2, 0.5, 0.8]) * cmath.exp(1j * r.uniform(0, 2 * math.pi))
+                op = T["Op"](T["F"].Squeeze, zeta=z)
             elif c == "id":
                 op = T["Op"](T["F"].Identity)
             else:
@@ -176,6 +185,10 @@ class Program:
                 ["composite"] * 3 + ["resize"] * 2 + ["invalid"] * 2 + ["trace"] * 2 + ["config"]
         if PROFILE == "measure":
             kinds = ["op1"] * 5 + ["opn"] * 3 + ["povm"] * 4 + ["measure"] * 6 + ["struct"] * 2 + ["composite"] * 2 + ["kraus"]
+        if PROFILE == "fock":       # Fock-heavy: displacement / squeezing of number, superposed, entangled and mixed states
+            kinds = ["op1"] * 9 + ["opn"] * 3 + ["kraus"] * 3 + ["struct"] * 3 + ["composite"] * 2 + ["measure", "resize", "config"]
+        if PROFILE == "kraus":      # channel-heavy: strong and very weak channels on every kind of target
+            kinds = ["op1"] * 4 + ["opn"] * 3 + ["kraus"] * 8 + ["struct"] * 3 + ["composite"] * 2 + ["measure", "config"]
         if PROFILE == "ctwin":      # no switch toggling by the program itself; near-pure states on purpose
             kinds = ["op1"] * 5 + ["tiny"] * 5 + ["opn"] * 3 + ["kraus"] * 2 + ["measure"] * 2 + ["struct"] * 4 + ["composite"] * 2 + ["resize"]
         what = r.choice(kinds)
@@ -209,6 +222,9 @@ class Program:
 
     def do_op1(self, live: List[Any]) -> None:
         s = self.rng.choice(live)
+        focks = [x for x in live if self.kind(x) == "F"]
+        if PROFILE == "fock" and focks and self.rng.random() < 0.7:
+            s = self.rng.choice(focks)
         self.entry_call(s, "apply_operation", self.single_op(s))
 
     def same_composite(self, live: List[Any], kind: str, n: int) -> List[Any]:
@@ -251,11 +267,20 @@ class Program:
 
     def do_kraus(self, live: List[Any]) -> None:
         s = self.rng.choice([x for x in live if self.kind(x) != "F"] or live)
+        if PROFILE in ("fock", "kraus") and self.rng.random() < (0.7 if PROFILE == "fock" else 0.3):
+            s = self.rng.choice([x for x in live if self.kind(x) == "F"] or live)
         d = s.dimensions if s.dimensions > 0 else 3
         if self.kind(s) == "F":
             s.expand()
             d = s.dimensions
-        self.entry_call(s, "apply_kraus", [self.jnp.array(k) for k in rand_kraus(self.rng, d)])
+        if PROFILE in ("fock", "kraus") and self.rng.random() < 0.5:
+            # a very weak unitary-mixture channel: nearly pure states around the library's 1e-6 purity thresholds
+            p = self.rng.choice([2e-6, 5e-6, 2e-5, 1e-3, 0.2])
+            u = rand_unitary(self.rng, d)
+            ks = [np.sqrt(1 - p) * np.eye(d, dtype=complex), np.sqrt(p) * u]
+        else:
+            ks = rand_kraus(self.rng, d)
+        self.entry_call(s, "apply_kraus", [self.jnp.array(k) for k in ks])
 
     def do_povm(self, live: List[Any]) -> None:
         s = self.rng.choice([x for x in live if self.kind(x) != "F"] or live)
